@@ -343,7 +343,7 @@ def run(ctx: core.Ctx):
     import packets_corr
     npk, pbad, _pk = packets_corr.run(ctx, "c16p", 40 if ctx.quick else 600, only=("coldef-fieldlist",))
     if pbad and witness is None:
-        witness = dict(kind="packet", **pbad[0])
+        witness = dict(pbad[0], kind="packet-" + str(pbad[0].get("kind")))
     if witness is not None:
         core.report_violation(ctx, "a catalog answer does not mirror the declared schema / LIKE is not SQL LIKE", witness)
     if (not pr["ok"] or disagreements) and not ctx.violations:
